@@ -793,6 +793,19 @@ def rule_dedup_conclusions(db: ProgramDB) -> List[Instance]:
                             "the alternative's conclusions for the items the base never matches are lost)"))
     if n == 0:
         raise AnalysisError("no else-if style implementation of _required_variables_from_child_ found")
+    # 'below' means at any depth: the collection the key reads ranges over all descendants, not over the children only
+    prop = se.lookup("_conclusions_of_all_descendants_")
+    if prop is not None:
+        srcs = {x.attr for x in own_nodes(prop.node) if isinstance(x, ast.Attribute) and isinstance(x.value, ast.Name) and x.value.id == "self"
+                and x.attr in ("_descendants_", "_children_", "_all_nodes_", "_conclusions_of_all_descendants_")}
+        recursive = any(isinstance(x, ast.Attribute) and x.attr == "_conclusions_of_all_descendants_" and not (isinstance(x.value, ast.Name) and x.value.id == "self")
+                        for x in own_nodes(prop.node))
+        ok3 = "_descendants_" in srcs or "_all_nodes_" in srcs or recursive
+        out.append(inst("DEDUP-CONCLUSIONS", HOLDS if ok3 else VIOLATION, prop, f"{prop.short}[at any depth]",
+                        "ranges over all descendants" if ok3 else
+                        f"`{prop.short}` ranges over {sorted(srcs) or 'nothing recognisable'}, i.e. one level: a conclusion two refinements deep below an alternative is missing "
+                        f"from the key, and failed rows that differ only in a variable that conclusion mentions are collapsed into one (the most specific refinement "
+                        f"fires for one of them only)", line=prop.lineno))
     return out
 
 
@@ -1101,5 +1114,138 @@ def rule_dedup_trackers_distinct(db: ProgramDB) -> List[Instance]:
                                 f"conjunction) suppresses the true row with the same values later on, and the complement loses assignments", line=e.lineno))
     if n < 2:
         raise AnalysisError(f"only {n} by-truth tracker mappings found in functions (2 confirmed by reading)")
+    return out
+
+
+# ---------------------------------------------------------------------------------- EVAL-PARENT-RESET
+def rule_eval_parent_reset(db: ProgramDB) -> List[Instance]:
+    """'Who evaluates me' is told to an operand by assignment (`operand._eval_parent_ = self`).  Some evaluators put the previous value
+    back in a `finally`, others leave their own identity behind; and some evaluators (for_all, a refinement, a concatenation) tell
+    their operands nothing and rely on the graph parent, which is what an operand falls back to when nothing is left behind.  So what
+    an evaluation leaves in `_eval_parent_` has to be wiped by the per-evaluation reset of every node: otherwise a condition shared by
+    q1 = an(entity(p, cond)) and q2 = an(entity(p, for_all(u, cond))) answers q2 with q1's requirements once q1 was evaluated."""
+    from .history import reset_chain_assigns
+    out = []
+    se = db.cls("SymbolicExpression")
+    fld = "_eval_parent_"
+    left_behind = []
+    for fn in db.all_functions():
+        if fn.cls is None or not fn.cls.is_subclass_of(se):
+            continue
+        sets = [a for a in own_nodes(fn.node) if isinstance(a, ast.Assign) and any(isinstance(t, ast.Attribute) and t.attr == fld
+                and not (isinstance(t.value, ast.Name) and t.value.id == "self") for t in a.targets) and unparse(a.value) == "self"]
+        if not sets:
+            continue
+        restores = [a for a in own_nodes(fn.node) if isinstance(a, ast.Assign) and any(isinstance(t, ast.Attribute) and t.attr == fld for t in a.targets)
+                    and isinstance(a.value, ast.Name) and a.value.id != "self"]
+        if len(restores) < len(sets):
+            left_behind.append(fn)
+    if not left_behind:
+        out.append(inst("EVAL-PARENT-RESET", HOLDS, se, "SymbolicExpression._eval_parent_[wiped per evaluation]", "every evaluator restores what it found"))
+        return out
+    wiped = fld in reset_chain_assigns(db, se)
+    out.append(inst("EVAL-PARENT-RESET", HOLDS if wiped else VIOLATION, se, "SymbolicExpression._eval_parent_[wiped per evaluation]",
+                    f"{len(left_behind)} evaluator(s) leave their identity in the operand ({', '.join(f.short for f in left_behind[:4])} …); the per-evaluation reset wipes it" if wiped else
+                    f"{', '.join(f.short for f in left_behind[:4])} leave `self` in the operand's `_eval_parent_` and the per-evaluation reset does not wipe it: an evaluator "
+                    f"that tells its operands nothing (for_all, a refinement, a concatenation) then evaluates a shared condition under the requirements of the "
+                    f"query that was evaluated BEFORE - q2 = an(entity(p, for_all(u, cond))) answers [] after q1 = an(entity(p, cond)) was evaluated"))
+    return out
+
+
+# ---------------------------------------------------------------------------------- DEDUP-TESTS-YIELDED-ROW
+def rule_dedup_tests_yielded_row(db: ProgramDB) -> List[Instance]:
+    """The duplicate test decides about ONE row: the row that is handed on when the test says 'not seen before' (and that is recorded
+    as seen by the same call).  Path rule: from every call `self._is_duplicate_output_(X)`, the first row yielded on the path the
+    generator takes when the answer is 'no duplicate' is X itself.  Testing the left operand's row and yielding the merged one makes
+    every right-side row after the first a 'duplicate' of the same left row: or_(L, R) with R true for two values of a variable L does
+    not bind yields one of the two assignments."""
+    from ..cfg import CFG
+    out = []
+    se = db.cls("SymbolicExpression")
+    n = 0
+    for c in sorted([se] + se.all_subclasses(), key=lambda k: k.qualname):
+        for m in c.methods.values():
+            if m.cls is not c or not m.is_generator:
+                continue
+            calls = [x for x in own_calls(m) if call_attr(x) == "_is_duplicate_output_" and x.args]
+            if not calls:
+                continue
+            cfg = CFG(m)
+            for call in calls:
+                arg = unparse(call.args[0])
+                starts = [nd for nd in cfg.nodes if nd.ast is not None and nd.kind in ("test", "stmt") and any(y is call for y in ast.walk(nd.ast))]
+                if not starts:
+                    continue
+                n += 1
+                st = starts[0]
+                # the 'not a duplicate' edge: the polarity under which the call is false
+                t = st.ast
+                neg = False
+                x = call
+                par = db.parent(x)
+                while par is not None and par is not t and not isinstance(par, ast.stmt):
+                    if isinstance(par, ast.UnaryOp) and isinstance(par.op, ast.Not):
+                        neg = not neg
+                    par = db.parent(par)
+                if isinstance(t, ast.UnaryOp) and isinstance(t.op, ast.Not) and any(y is call for y in ast.walk(t)) and par is t:
+                    neg = not neg
+                want_label = "T" if neg else "F"
+
+                def first_edge_ok(e, st=st, want_label=want_label):
+                    if e.src == st.id and st.kind == "test":
+                        return e.label == want_label
+                    return True
+                p = cfg.find_path(st.id, lambda nd: nd.has_yield, kinds=("n",), edge_ok=first_edge_ok)
+                if p is None:
+                    out.append(inst("DEDUP-TESTS-YIELDED-ROW", INFO, m, f"{m.short}[{unparse(call)[:46]}]", "no row is yielded after this test", line=call.lineno))
+                    continue
+                ynode = cfg.nodes[p[-1].dst]
+                ys = [y for y in ast.walk(ynode.ast) if isinstance(y, (ast.Yield, ast.YieldFrom))]
+                yv = unparse(ys[0].value) if ys and ys[0].value is not None else ""
+                ok = yv == arg or isinstance(ys[0], ast.YieldFrom)
+                out.append(inst("DEDUP-TESTS-YIELDED-ROW", HOLDS if ok else VIOLATION, m, f"{m.short}[{unparse(call)[:46]}]",
+                                f"the row tested is the row handed on (`{arg}`)" if ok else
+                                f"the duplicate test looks at `{arg}` and the row handed on when it says 'new' is `{yv}` (line {ynode.lineno}): the test records and "
+                                f"compares another row than the one it decides about - for one row of the first operand every row of the second after the first "
+                                f"counts as seen, so or_(L, R) with R true for two values of a variable L does not bind yields one assignment instead of two "
+                                f"(the(...) returns a value instead of raising MultipleSolutionFound)", line=call.lineno))
+    if n < 4:
+        raise AnalysisError(f"only {n} duplicate tests in generators found")
+    return out
+
+
+# ---------------------------------------------------------------------------------- REQUIRED-ASK-AS-SELF
+def rule_required_ask_as_self(db: ProgramDB) -> List[Instance]:
+    """'What do you need of my rows?' travels up the tree: a node asks the node that evaluates it, and that node recognises WHICH of its
+    operands is asking by identity (`child is self.left`, `child is self.right`).  So the question is asked in the asker's own
+    name: every upward call in an implementation of _required_variables_from_child_ passes `self` - passing the node's own child
+    makes the parent recognise neither operand, the sibling condition's variables are not required, and rows that differ only there
+    are dropped as duplicates below (a sub-query that mentions a variable it does not select, next to a condition on that variable)."""
+    out = []
+    se = db.cls("SymbolicExpression")
+    n = 0
+    for c in sorted([se] + se.all_subclasses(), key=lambda k: k.qualname):
+        m = c.methods.get("_required_variables_from_child_")
+        if m is None or m.cls is not c:
+            continue
+        for call in own_calls(m):
+            if call_attr(call) != "_required_variables_from_child_":
+                continue
+            recv = call.func.value
+            if isinstance(recv, ast.Call) and dotted(recv.func) == "super":
+                continue                    # the same node, the base class's part of the answer: the question is passed on as it came
+            if not (isinstance(recv, ast.Attribute) and recv.attr in ("_parent_", "_eval_parent_") and isinstance(recv.value, ast.Name) and recv.value.id == "self"):
+                continue
+            n += 1
+            amap = bind_args(fn_params(m), call)
+            first = call.args[0] if call.args else amap.get(m.positional_params[1])
+            ok = isinstance(first, ast.Name) and first.id == "self"
+            out.append(inst("REQUIRED-ASK-AS-SELF", HOLDS if ok else VIOLATION, m, f"{m.short}[{unparse(call)[:50]}]",
+                            "asks its parent in its own name" if ok else
+                            f"`{unparse(call)[:70]}` asks the parent about `{unparse(first) if first is not None else '?'}`, which is not one of the parent's operands: the parent "
+                            f"answers as for an unknown child, the variables of the sibling condition are missing from the key, and the duplicate suppression below drops "
+                            f"rows that differ only in them", line=call.lineno))
+    if n < 3:
+        raise AnalysisError(f"only {n} upward questions found")
     return out
 
